@@ -33,6 +33,7 @@ func (c *cell) op(addr uintptr, write bool) {
 		c.gen = s.Gen
 		c.id = s.NewObjID()
 		c.vc = make([]uint32, s.NumTasks())
+		c.loadTask, c.loadStreak = 0, 0 // nothing of an earlier run may reach into this one
 	}
 	Ops++
 	if me := s.CurTask(); !write && c.loadTask == me.ID+1 {
